@@ -49,6 +49,7 @@ from lib import common
 RUN = os.path.join(common.BUILD, "ocaml", "eval", "run")
 NPROC = 16
 CHUNK = 120                      # cases per generator/nevrun process (x3 programs)
+CHUNK_OF = {"tailrec": 24}       # the evaluator needs ~0.3 s for a 500-iteration tail loop
 ASAN_ENV = "detect_leaks=0:abort_on_error=0:exitcode=99:allocator_may_return_null=1"
 INT_RE = re.compile(r"^-?\d+$")
 UNH_RE = re.compile(r"unhandled (\w+) exception")
@@ -433,7 +434,7 @@ def run_evaldiff(ctx, profiles, ncases, tier, on_crash=None, variants=("o", "u",
     for pi, prof in enumerate(profiles):
         left, k = per, 0
         while left > 0:
-            n = min(CHUNK, left)
+            n = min(CHUNK_OF.get(prof, CHUNK), left)
             seed = (ctx.seed * 1000003 + pi * 10007 + k) % 2000000011
             jobs.append((nevrun, tmp, prof, seed, n, tuple(overrides), tuple(variants), timeout))
             left -= n
